@@ -219,6 +219,20 @@ def reachF : Nat → Heap → Addr → List Addr
 
 def reach (h : Heap) (a : Addr) : List Addr := reachF h.size h a
 
+/-- follow member names through container cells (`c.Child(k1).Child(k2)…` on plain names) -/
+def lookupKeys (h : Heap) : Addr → List String → Option Addr
+  | a, [] => some a
+  | a, k :: ks =>
+    match h.get? a with
+    | some (.cont kvs) =>
+      match AMap.get? kvs k with
+      | some c => lookupKeys h c ks
+      | none => none
+    | _ => none
+
+/-- every children map is a Go map: keys strictly sorted, hence unique -/
+def Heap.MapsOk (h : Heap) : Prop := ∀ a kvs, h.get? a = some (.cont kvs) → AMap.Sorted kvs
+
 /-! ## Merge -/
 
 /-- hasValue(n): `n == nilLeaf` is a pointer test, `Value() == nil` a content test -/
